@@ -347,13 +347,20 @@ def run(chk):
             for au in (['rad', 'deg'] if has_angle else ['rad']):
                 jobs.append((kname, combo, au, [0] * n))
         # broadcasting: 1-d data x per-pixel (other dim) operands; 2-d data
-        if chk.tier == 'thorough' or kname in ('wavelength_from_tof', 'dspacing_from_tof', 'Q_from_wavelength'):
-            jobs.append((kname, tuple(['float64'] * n), 'rad', ['tof'] + ['spectrum'] * (n - 1)))
-            jobs.append((kname, tuple(['float32'] + ['float64'] * (n - 1)), 'rad', [(('spectrum', 'tof'), (2, 2))] + ['spectrum'] * (n - 1)))
-            jobs.append((kname, tuple(['float64'] * n), 'rad', ['tof'] + [0] * (n - 1)))
+        layouts = [['tof'] + ['spectrum'] * (n - 1), [(('spectrum', 'tof'), (2, 2))] + ['spectrum'] * (n - 1), ['tof'] + [0] * (n - 1), [0] + ['spectrum'] * (n - 1)]
+        if chk.tier == 'thorough':
+            # every operand layout x every dtype combination x both angle units
+            for combo in combos:
+                for au in (['rad', 'deg'] if has_angle else ['rad']):
+                    for lay in layouts:
+                        jobs.append((kname, combo, au, lay))
+        elif kname in ('wavelength_from_tof', 'dspacing_from_tof', 'Q_from_wavelength'):
+            jobs.append((kname, tuple(['float64'] * n), 'rad', layouts[0]))
+            jobs.append((kname, tuple(['float32'] + ['float64'] * (n - 1)), 'rad', layouts[1]))
+            jobs.append((kname, tuple(['float64'] * n), 'rad', layouts[2]))
     run_jobs(chk, job_kernel, jobs)
     from . import shimval
-    shimval.validate(chk, 'kinematics', 40 if chk.tier == 'quick' else 240)
+    shimval.validate(chk, 'kinematics', 40 if chk.tier == 'quick' else 1000)
     rjobs = [('float64', 'float64'), ('float32', 'float64')]
     if chk.tier == 'thorough':
         rjobs += [('float32', 'float32'), ('int64', 'float64'), ('float64', 'float32')]
@@ -361,7 +368,7 @@ def run(chk):
     run_jobs(chk, job_canary, list(kin.KERNELS))
     hist = [(k, a, b) for k in kin.KERNELS for a, b in (('float32', 'float64'), ('float64', 'float32'), ('int64', 'float64'))]
     run_jobs(chk, job_history, hist)
-    chk.bounds = {'array_len': 2, 'shapes': 'scalar, 1-d x 1-d (outer), 2-d x 1-d', 'dtypes': 'data {f64,f32,i64} x other {f64,f32}',
+    chk.bounds = {'array_len': 2, 'shapes': 'scalar, 1-d x 1-d (outer), 2-d x 1-d, 1-d x scalar, scalar x 1-d' + (' for every dtype combination and angle unit' if chk.tier == 'thorough' else ' (selected kernels)'), 'dtypes': 'data {f64,f32,i64} x other {f64,f32}',
                   'values': 'positive reals (any), unit scale factors symbolic positive reals, theta in (0, pi/2] via sin(theta)>0'}
     chk.stubs = ['scipp -> symsc (Variable arithmetic, units, dtype promotion, to_unit, astype, sin, sqrt)']
     chk.axioms = ['sin uninterpreted with sin(theta) > 0 on the quantified range', 'h, m_n arbitrary positive reals',
